@@ -30,6 +30,12 @@ func flatFact(g *gen.Gen) map[string]interface{} {
 			m[k] = g.ScalarArray(1 + g.Intn(3))
 		case 1:
 			m[k] = gen.Nums[g.Intn(len(gen.Nums))]
+		case 2:
+			if g.Intn(2) == 0 {
+				m[k] = nil // JSON null is a value like any other: a variable can be bound to it
+			} else {
+				m[k] = g.Intn(2) == 0
+			}
 		default:
 			m[k] = gen.Strs[g.Intn(4)]
 		}
